@@ -56,6 +56,17 @@ Proof. split; [exact w_doc_wf|apply leaves_trace_flush_spec; exact w_replace_tra
 Theorem C04_refuted_inside_calc : refuted w_ord w_doc w_calc 3.
 Proof. split; [exact w_doc_wf|apply leaves_trace_flush_spec; exact w_calc_inside_trace]. Qed.
 
+(* (vii) at an EVENT BOUNDARY, after the flush: a recomputed cell whose row is removed and added again under the
+   same id within the bundle keeps the recomputed value (the restoring update is appended at the back of the undo
+   list, so it runs before the undo of the remove re-adds the row with the value captured at removal).  Without the
+   re-add, or with the recalculation after the re-add, the bundle is reverted. *)
+Theorem C04_refuted_readded_row :
+  refuted w_ord w_doc w_readd 14 /\
+  match run_until_crash w_ord (init_state w_doc []) w_readd 14 with Crashed _ None [] => True | _ => False end.
+Proof.
+  split; [split; [exact w_doc_wf|apply leaves_trace_flush_spec; exact w_readd_trace]|exact w_readd_boundary].
+Qed.
+
 Theorem C04_rollback_statement_is_false : ~ C04_rollback_statement.
 Proof.
   intros H. destruct C04_refuted_midaction as (Hw & st & cur & done & Hrun & Hne).
